@@ -204,6 +204,18 @@ class BoundMethod:
         self.me, self.dc, self.m = me, dc, m
 
 
+class PyFunc:
+    """A witness callable supplied by a rule (a marker for a method or function of the environment): called with the evaluated
+    arguments wherever the folded code calls the value - whatever the syntax of the call (`self.m(x)`, `getattr(self, name)(x)`,
+    a table of bound methods, a local alias)."""
+
+    def __init__(self, fn, name="<witness>"):
+        self.fn, self.name = fn, name
+
+    def __repr__(self):
+        return f"PyFunc({self.name})"
+
+
 def _is_data_type(ci):
     return any(k.name in ("DataType", "EnumMap", "Exception", "BaseException") for k in ci.mro()) or any(getattr(b, "id", None) in ("Exception", "NamedTuple") for k in ci.mro() for b in k.node.bases)
 
@@ -295,7 +307,7 @@ class Obj:
 
 
 class Interp:
-    def __init__(self, ctx, module, call_hook: Optional[Callable] = None, max_depth=3, cls=None):
+    def __init__(self, ctx, module, call_hook: Optional[Callable] = None, max_depth=6, cls=None):
         self.ctx, self.module, self.hook, self.max_depth, self.cls = ctx, module, call_hook, max_depth, cls
         self.steps = 0
         self.me = None  # the witness instance whose method is being folded (object mode, see new_object / run_method)
@@ -662,6 +674,14 @@ class Interp:
         if isinstance(target, BoundMethod):
             args, kwargs = self._call_args(e, env, depth)
             return self._invoke(target.dc, target.m, target.me, args, kwargs, depth)
+        if isinstance(target, PyFunc):
+            args, kwargs = self._call_args(e, env, depth)
+            try:
+                return target.fn(*args, **kwargs)
+            except (_Raise, _Unknown):
+                raise
+            except Exception as err:
+                raise _Unknown(f"witness callable {target.name} failed: {err!r}")
         return UNKNOWN
 
     def _ev(self, e, env, depth=0):
@@ -691,16 +711,24 @@ class Interp:
             v = self.ctx.folder.eval(e, self.module, env=env)
         if v is not UNKNOWN and not _has_unknown(v):
             return v
-        if isinstance(e, ast.Attribute) and isinstance(e.ctx, ast.Load) and not any(isinstance(x, ast.Call) for x in ast.walk(e.value)):
-            # an attribute of a class that one of its bases - made by a class factory - provides
+        if isinstance(e, ast.Attribute) and isinstance(e.ctx, ast.Load):
+            # an attribute of a class that one of its bases - made by a class factory - provides; an attribute of a witness object that
+            # a call returned (`make(x).field`: the call is evaluated here, once)
+            has_call = any(isinstance(x, ast.Call) for x in ast.walk(e.value))
             try:
                 base_ = self.ev(e.value, env, depth)
             except _Unknown:
+                if has_call:
+                    raise
                 base_ = UNKNOWN
             if isinstance(base_, ClassRef):
                 dv = self._class_attr_dynamic(base_.ci, e.attr, depth)
                 if dv is not UNKNOWN:
                     return dv
+            if isinstance(base_, Obj):
+                return self._obj_attr(base_, e.attr, depth)
+            if has_call and base_ is not UNKNOWN and not isinstance(base_, (ClassRef, Instance, FuncRef, Stream, Bound)):
+                return getattr(base_, e.attr)  # (a plain value: AttributeError is what the code would raise)
         if isinstance(e, ast.Compare) and len(e.ops) > 1:
             left = e.left
             for op_, right in zip(e.ops, e.comparators):
@@ -758,6 +786,26 @@ class Interp:
             r = self._method_call(e, env, depth)
             if r is not UNKNOWN:
                 return r
+            # a call of a value: a bound method / witness callable held in a local, a table or returned by getattr(...)
+            fv = UNKNOWN
+            if isinstance(e.func, ast.Name) and isinstance(env.get(e.func.id), (BoundMethod, PyFunc)):
+                fv = env[e.func.id]
+            elif isinstance(e.func, (ast.Call, ast.Subscript)) or (isinstance(e.func, ast.Attribute) and isinstance(e.func.value, ast.Name) and isinstance(env.get(e.func.value.id), Obj)
+                                                                   and isinstance(env[e.func.value.id].__dict__.get(e.func.attr), PyFunc)):
+                try:
+                    fv = self.ev(e.func, env, depth)
+                except _Unknown:
+                    fv = UNKNOWN
+            if isinstance(fv, (BoundMethod, PyFunc)):
+                args, kwargs = self._call_args(e, env, depth)
+                if isinstance(fv, PyFunc):
+                    try:
+                        return fv.fn(*args, **kwargs)
+                    except (_Raise, _Unknown):
+                        raise
+                    except Exception as err:  # the rule's witness code failed: the checker's failure, not the code's
+                        raise _Unknown(f"witness callable {fv.name} failed: {err!r}")
+                return self._invoke(fv.dc, fv.m, fv.me, args, kwargs, depth)
             if isinstance(e.func, ast.Name) and isinstance(env.get(e.func.id), LocalFunc):
                 lf = env[e.func.id]
                 if self.oo_depth > 24:
@@ -864,7 +912,7 @@ class Interp:
             r_ = self._classmethod_call(e, env, depth)
             if r_ is not UNKNOWN:
                 return r_
-        if isinstance(e, ast.Name) and isinstance(env.get(e.id), (Stream, Bound, Obj)):
+        if isinstance(e, ast.Name) and isinstance(env.get(e.id), (Stream, Bound, Obj, LazyGen)):
             return env[e.id]
         if isinstance(e, ast.Call) and isinstance(e.func, (ast.Name, ast.Attribute)) and not self._mentions_obj(e.func, env):
             callee = self.ctx.folder.eval(e.func, self.module, env=env)
@@ -980,6 +1028,31 @@ class Interp:
                     return getattr(recv_, e.func.attr)(*args)
             if isinstance(recv_, (list, set, dict, bytearray)) and e.func.attr in _MUTATORS and hasattr(recv_, e.func.attr):
                 return getattr(recv_, e.func.attr)(*[self.ev(a, env, depth) for a in e.args])
+        if isinstance(e, ast.Call) and isinstance(e.func, ast.Name) and e.func.id in ("isinstance", "issubclass") and len(e.args) == 2 and e.func.id not in env and not e.keywords:
+            # against classes of the package: decided on the class a witness object carries, through the model's MRO
+            try:
+                t_ = self.ev(e.args[1], env, depth)
+            except _Unknown:
+                t_ = UNKNOWN
+            ts_ = list(t_) if isinstance(t_, (tuple, list)) else [t_]
+            if ts_ and all(isinstance(x, ClassRef) for x in ts_):
+                v_ = self.ev(e.args[0], env, depth)
+                if e.func.id == "isinstance":
+                    if isinstance(v_, Obj) and "_ci" in v_.__dict__ and not v_.__dict__.get("_is_class"):
+                        return any(x.ci in v_.__dict__["_ci"].mro() for x in ts_)
+                    if isinstance(v_, Instance):
+                        return any(x.ci in v_.ci.mro() for x in ts_)
+                    if isinstance(v_, str) and v_.startswith("<") and v_.endswith(">"):
+                        pass  # an exception witness bound by `except ... as err`: decided below on the exception hierarchy
+                    elif v_ is None or isinstance(v_, (int, float, str, bytes, bytearray, list, tuple, dict, set, frozenset)):
+                        return False
+                else:
+                    if isinstance(v_, ClassRef):
+                        return any(x.ci in v_.ci.mro() for x in ts_)
+                    if isinstance(v_, Obj) and v_.__dict__.get("_is_class") and "_ci" in v_.__dict__:
+                        return any(x.ci in v_.__dict__["_ci"].mro() for x in ts_)
+                    if v_ is None or isinstance(v_, (int, float, str, bytes, bytearray, list, tuple, dict)) or (isinstance(v_, Obj) and "_ci" in v_.__dict__):
+                        raise TypeError("issubclass() arg 1 must be a class")
         if isinstance(e, ast.Call) and isinstance(e.func, ast.Name) and e.func.id == "isinstance" and len(e.args) == 2 and "isinstance" not in env:
             kinds = {"str": (str,), "bytes": (bytes,), "bytearray": (bytearray,), "int": (int,), "float": (float,), "bool": (bool,), "list": (list,), "tuple": (tuple,), "dict": (dict,),
                      "set": (set, frozenset), "Sequence": (list, tuple, str, bytes, range), "Mapping": (dict,), "Iterable": (list, tuple, str, bytes, dict, set, range), "Generator": ()}
@@ -1029,6 +1102,38 @@ class Interp:
                 raise TypeError("range() of a non-integer")
             if all(isinstance(a, (int, float, str, bytes, bytearray, bool, list, tuple, dict, range, set, frozenset, type(None), LazyGen)) for a in args):
                 return _PURE_BUILTINS[e.func.id](*args)
+        if isinstance(e, ast.Call) and ast.unparse(e.func) in ("Struct", "struct.Struct") and len(e.args) == 1 and not e.keywords and "Struct" not in env and self.ctx.model.resolve(self.module.name, "Struct") is None:
+            import struct as _struct
+
+            f_ = self.ev(e.args[0], env, depth)
+            if isinstance(f_, (str, bytes)):
+                try:
+                    return _struct.Struct(f_)
+                except _struct.error:
+                    raise _Raise("struct.error")
+        if isinstance(e, ast.Call) and isinstance(e.func, ast.Attribute) and e.func.attr in ("pack", "unpack", "unpack_from", "iter_unpack") and not e.keywords:
+            import struct as _struct
+
+            try:
+                rs_ = self.ev(e.func.value, env, depth) if not any(isinstance(x, ast.Call) for x in ast.walk(e.func.value)) else None
+            except _Unknown:
+                rs_ = None
+            if isinstance(rs_, _struct.Struct):
+                args = [self.ev(a, env, depth) for a in e.args]
+                try:
+                    r_ = getattr(rs_, e.func.attr)(*args)
+                except _struct.error:
+                    raise _Raise("struct.error")
+                return list(r_) if e.func.attr == "iter_unpack" else r_
+        if isinstance(e, ast.Attribute) and e.attr in ("size", "format") and not any(isinstance(x, ast.Call) for x in ast.walk(e.value)):
+            import struct as _struct
+
+            try:
+                rs_ = self.ev(e.value, env, depth)
+            except _Unknown:
+                rs_ = None
+            if isinstance(rs_, _struct.Struct):
+                return getattr(rs_, e.attr)
         if isinstance(e, ast.Call) and ast.unparse(e.func) in ("pack", "unpack", "unpack_from", "calcsize", "struct.pack", "struct.unpack", "struct.unpack_from", "struct.calcsize") and not e.keywords:
             import struct as _struct
 
@@ -1159,7 +1264,8 @@ class Interp:
 
     @staticmethod
     def _mentions_obj(e, env):
-        return any(isinstance(x, ast.Name) and isinstance(env.get(x.id), (Obj, Stream, Bound)) for x in ast.walk(e))
+        # (a lazy generator is never handed to the constant folder either: looking at it would consume it)
+        return any(isinstance(x, ast.Name) and isinstance(env.get(x.id), (Obj, Stream, Bound, LazyGen)) for x in ast.walk(e))
 
     # ------------------------------------------------------------------ statements
     def call(self, func, env, depth=0):
